@@ -252,7 +252,11 @@ def r3(cx):
             vorg = M.provenance(b, t["args"][vi]["pl"])
             vloads = [(o[1][0], M.strip_unwraps(o[2])) for o in vorg if o[0] == "call" and LOAD_RX.search(o[1][1])]
             lb = {l[0] for l in loads}
-            if any(x[0] in lb and x[1].startswith(".0") for x in vloads):
+            foreign = [x for x in vloads if x[0] not in lb]
+            if foreign:
+                cx.violation(k, inst + ":content", "%s: the value saved by %s also derives from a second read (%s): it can mix two catalog versions"
+                             % (c["sp"], helper, b.sp(foreign[0][0])), [c["sp"], b.sp(foreign[0][0])])
+            elif any(x[0] in lb and x[1].startswith(".0") for x in vloads):
                 cx.passed(k, inst + ":content", [c["sp"]], "content = .0 of the same load")
             else:
                 cx.violation(k, inst + ":content", "%s: the value saved by %s does not derive from the load that produced its token (origins: %s)"
@@ -375,3 +379,93 @@ def r5(cx):
         cx.passed("metadata::s3::MetadataCatalog", "catalog-owns-chunks-and-time-index", [], fields)
     else:
         cx.violation("metadata::s3::MetadataCatalog", "catalog-owns-chunks-and-time-index", "MetadataCatalog no longer holds both chunks and time_index: %s" % fields, [])
+
+
+LOAD_ANY_RX = re.compile(r"ObjectStoreMetadataClient::load_\w+$")
+
+
+def _cas_blocks(cx):
+    """(async-block key, parent key, aggregate sites in the parent) for every nested coroutine that holds a conditional save"""
+    out = {}
+    for k, c in _save_sites(cx):
+        if "::{closure#" not in k:
+            continue
+        par = k.rsplit("::{closure#", 1)[0]
+        if par in cx.prog.calls and cx.prog.calls[par].get("kind") == "coroutine":
+            pb = cx.body(par)
+            aggs = M.aggregates(pb, lambda rv: rv.get("ak") == "coroutine" and rv.get("def") == k)
+            if aggs:
+                out[k] = (par, aggs)
+    return out
+
+
+@rule("C02", "R6", "a retry body starts from scratch: the cas_retry! block captures nothing by mutable reference, and a hand-written retry loop "
+      "carries no user variable that is assigned both before and inside the loop (state surviving a conflict would make the retried mutation differ from the first attempt)")
+def r6(cx):
+    blocks = _cas_blocks(cx)
+    cx.floor("cas_retry! blocks with a conditional save", len(blocks), 9)
+    for k, (par, aggs) in sorted(blocks.items()):
+        pb = cx.body(par)
+        bad = []
+        for (bi, si, st) in aggs:
+            for name, op in zip(st["rv"].get("fields") or [], st["rv"]["ops"]):
+                if op["k"] not in ("copy", "move") or op["pl"].get("p"):
+                    continue
+                for (dbi, dsi, dk, pay) in pb.defs().get(op["pl"]["l"], []):
+                    if dk == "assign" and pay["rv"]["k"] == "ref" and pay["rv"].get("mut"):
+                        bad.append((name, pb.sp(dbi, dsi)))
+        if bad:
+            cx.violation(k, "retry-body-captures-mutable-state:%s" % bad[0][0],
+                         "%s: the retry block mutates `%s`, which lives outside the block and keeps its value across attempts: after a conflict the retried "
+                         "load-modify-save is not the same mutation (e.g. index entries already consumed are not added again)" % (bad[0][1], bad[0][0]), [b_[1] for b_ in bad])
+        else:
+            cx.passed(k, "retry-body-captures-mutable-state", [pb.sp(aggs[0][0], aggs[0][1])])
+    # hand-written loops
+    n = 0
+    for k, c in _save_sites(cx):
+        if k in blocks:
+            continue
+        b = cx.body(k)
+        sb = c["b"]
+        if sb not in b.reach_set(sb):
+            continue
+        loop = {x for x in b.reach_set(sb) if sb in b.reach_set(x)} | {sb}
+        n += 1
+        carried = []
+        for l, name in sorted(b.names.items()):
+            if name in ("iter", "__awaitee", "self") or l <= b.nargs:
+                continue
+            ds = [d for d in b.defs().get(l, []) if not b.is_cleanup(d[0])]
+            din = [d for d in ds if d[0] in loop]
+            dout = [d for d in ds if d[0] not in loop and any(x in b.reach_set(d[0]) for x in loop)]
+            if din and dout:
+                carried.append((name, b.sp(din[0][0], din[0][1])))
+        if carried:
+            cx.violation(k, "retry-loop-carries-state:%s" % carried[0][0], "%s: `%s` is assigned before the retry loop and again inside it: its value survives a conflict and "
+                         "changes what the retried attempt writes" % (carried[0][1], carried[0][0]), [x[1] for x in carried])
+        else:
+            cx.passed(k, "retry-loop-carries-state", [c["sp"]])
+    cx.floor("hand-written retry loops with a conditional save", n, 5)
+
+
+@rule("C02", "R7", "decisions and content inside a retry body come from that iteration's read: nothing captured by a cas_retry! block derives from "
+      "another catalog read taken outside the block (stale snapshot)")
+def r7(cx):
+    blocks = _cas_blocks(cx)
+    for k, (par, aggs) in sorted(blocks.items()):
+        pb = cx.body(par)
+        bad = []
+        for (bi, si, st) in aggs:
+            for name, op in zip(st["rv"].get("fields") or [], st["rv"]["ops"]):
+                org = M.operand_origins(pb, op, at=(bi, si), adapters=M.PURE_ADAPTERS | {"std::iter::Iterator::max", "std::iter::Iterator::min", "std::iter::Iterator::filter_map",
+                                                                                         "std::option::Option::<T>::unwrap_or", "std::iter::Iterator::sum", "std::iter::Iterator::count"})
+                loads = [o for o in org if o[0] == "call" and LOAD_ANY_RX.search(o[1][1])]
+                if loads:
+                    bad.append((name, pb.sp(loads[0][1][0]), loads[0][1][1].rsplit("::", 1)[-1]))
+        if bad:
+            cx.violation(k, "retry-body-uses-outside-read:%s" % bad[0][0],
+                         "%s: `%s`, used inside the retry block, is computed from %s taken outside the block: after a concurrent commit the retried attempt "
+                         "acts on a stale snapshot (validation or derived values no longer match the version being replaced)" % (bad[0][1], bad[0][0], bad[0][2]),
+                         [x[1] for x in bad])
+        else:
+            cx.passed(k, "retry-body-uses-outside-read", [pb.sp(aggs[0][0], aggs[0][1])])
